@@ -209,16 +209,22 @@ def _helper_main():
 
 
 def _plain(d):
-    """only list/tuple/dict/set/frozenset and leaves, no cycle: repr() must equal the one-line form"""
+    """values for which the spec of Python's repr (SpecPretty.py_repr) is defined: list/tuple/dict/set/frozenset,
+    array, defaultdict, non-empty deque (build() never sets maxlen), the empty Counter -- over leaves, no cycle,
+    no shared object.  Mapping keys are leaf reprs in V whatever they are."""
     tag = d[0]
-    if tag == 31:
+    if tag in (30, 31):
         return False
-    if tag <= 5:
+    if tag <= 5 or tag == 15:
         return True
     if tag in (10, 11, 12, 13):
         return all(_plain(x) for x in d[1])
-    if tag == 20:
-        return all(_plain(k) and _plain(v) for k, v in d[1])
+    if tag == 14:
+        return len(d[1]) > 0 and all(_plain(x) for x in d[1])
+    if tag in (20, 22):
+        return all(_plain(v) for _, v in d[-1])
+    if tag == 21:
+        return d[1] == []
     return False
 
 
